@@ -26,7 +26,7 @@ func init() {
 	fw.Register(&fw.Property{
 		ID:    "C18",
 		Level: "exploration",
-		Rule: "cases = an on-disk instance with 1-3 databases (mixed types) plus a remote writer; a writer goroutine, replication of remote entries and (in some cases) a Load run while Close of ONE store / of the WHOLE instance / Drop of one database (in every second close-instance case right after the context the instance was created with has been cancelled) is issued at a moment in {idle, write.after-append, write.after-persist, write.after-index, repl.after-fetch, merge.after-join, during Load, while an application-issued Sync (background context) is blocked in a block fetch, PRNG delay}: the hooked goroutine is held at the point while the closing goroutine runs. Afterwards the operation set {write, read, Load, Sync, Close, Close, Drop} is issued on the closed store, each under a watchdog. After Close of a store (without Drop) the database is reopened on the live instance, the OLD handle is closed twice more, and heads exchanged on reconnect must reach the new handle. Finally every instance is closed and goroutines are attributed by creation site. " +
+		Rule: "cases = an on-disk instance with 1-3 databases (mixed types) plus a remote writer; a writer goroutine, replication of remote entries and (in some cases) a Load run while Close of ONE store / of the WHOLE instance / Drop of one database (in every second close-instance case right after the context the instance was created with has been cancelled, in every second one with the cache datastore of one database reporting an error on Close) is issued at a moment in {idle, write.after-append, write.after-persist, write.after-index, repl.after-fetch, merge.after-join, during Load, while an application-issued Sync (background context) is blocked in a block fetch, PRNG delay}: the hooked goroutine is held at the point while the closing goroutine runs. Afterwards the operation set {write, read, Load, Sync, Close, Close, Drop} is issued on the closed store, each under a watchdog. After Close of a store (without Drop) the database is reopened on the live instance, the OLD handle is closed twice more, and heads exchanged on reconnect must reach the new handle. Finally every instance is closed and goroutines are attributed by creation site. " +
 			"distinct = (databases, target, action, moment, store type, post-close operations, PRNG seed of the background timing); non-trivial = the moment was reached while activity was in flight (point arrivals observed, or idle by design) and all post-close operations were issued",
 		Assumptions: []string{"goroutines are attributed to go-orbit-db by their 'created by' frame; harness subscriptions are cancelled first; goroutines of kubo/libp2p/leveldb are not judged", "a hang = the operation still blocked after the watchdog (15 s plain) while the world is otherwise at rest"},
 		Cases:       c18Cases,
@@ -55,7 +55,7 @@ func c18Cases(tier string, seed int64) []fw.Case {
 					if rep == 0 && nd == 3 && (m == "write.after-index" || m == "random") {
 						continue
 					}
-					out = append(out, fw.Case{Idx: idx, Seed: rng.Int63(), P: map[string]interface{}{"action": action, "moment": m, "ndbs": nd, "type": storeTypes[idx%3], "postdrop": action == "close-store" && idx%2 == 1, "ctxfirst": action == "close-instance" && idx%2 == 0}})
+					out = append(out, fw.Case{Idx: idx, Seed: rng.Int63(), P: map[string]interface{}{"action": action, "moment": m, "ndbs": nd, "type": storeTypes[idx%3], "postdrop": action == "close-store" && idx%2 == 1, "ctxfirst": action == "close-instance" && idx%2 == 0, "closeerr": action == "close-instance" && idx%4 >= 2}})
 					idx++
 				}
 			}
@@ -134,7 +134,8 @@ func c18Run(c fw.Case) fw.Verdict {
 	if raceBuild() {
 		wd = 45 * time.Second
 	}
-	P, err := e.W.AddPeer(sim.PeerOpts{OnDisk: true})
+	fc := newFaultCache()
+	P, err := e.W.AddPeer(sim.PeerOpts{OnDisk: true, Cache: fc})
 	if err != nil {
 		return fw.Verdict{Status: fw.Inconclusive, What: err.Error()}
 	}
@@ -254,6 +255,10 @@ func c18Run(c fw.Case) fw.Verdict {
 		case "drop":
 			return sT.Drop()
 		default:
+			if c.Bool("closeerr") {
+				// the datastore of one of the databases reports an error when it is closed
+				fc.FailNextClose(1)
+			}
 			if c.Bool("ctxfirst") {
 				// the application ends the context it created the instance with, then closes the instance
 				P.CancelInstanceContext()
@@ -443,6 +448,7 @@ func c18Run(c fw.Case) fw.Verdict {
 		time.Sleep(10 * time.Millisecond)
 	}
 	v.Count("goroutine_censuses", 1)
+	v.Count("datastore_close_errors_injected", int64(atomic.LoadInt32(&fc.CloseFailed)))
 	if len(leaked) > 0 {
 		var sites []string
 		for s, n := range leaked {
